@@ -5,6 +5,7 @@ import (
 	"log/slog"
 	"net/http"
 	"reservoir/utils/typeutils"
+	"strings"
 	"time"
 )
 
@@ -106,15 +107,20 @@ func ParseHeaderDirective(header http.Header) *HeaderDirectives {
 				slog.Debug("Error parsing Range header", "error", err, "value", value)
 			}
 		case "Cache-Control":
-			if cc, err := parseCacheControl(value); err == nil {
+			// Several Cache-Control lines are equivalent to one comma-separated list
+			if cc, err := parseCacheControl(strings.Join(values, ",")); err == nil {
 				hd.CacheControl.value = typeutils.Some(cc)
 			} else {
+				// A Cache-Control we cannot understand must not make the response cacheable
+				hd.CacheControl.value = typeutils.Some(cacheControl{noCache: true})
 				slog.Debug("Error parsing Cache-Control header", "error", err, "value", value)
 			}
 		case "Expires":
 			if t, err := time.Parse(http.TimeFormat, value); err == nil {
 				hd.Expires.value = typeutils.Some(t)
 			} else {
+				// An invalid Expires value means "already expired" (RFC 9111 §5.3)
+				hd.Expires.value = typeutils.Some(time.Time{})
 				slog.Debug("Error parsing Expires header", "error", err, "value", value)
 			}
 		}
@@ -144,7 +150,9 @@ func (hd *HeaderDirectives) ShouldCache(ignoreCacheControl bool) bool {
 		}
 	}
 
-	if !ignoreCacheControl && hd.Expires.IsPresent() {
+	// max-age takes precedence over Expires (RFC 9111 §5.3), as in GetExpiresOrDefault
+	hasMaxAge := hd.CacheControl.IsPresent() && hd.CacheControl.Value().maxAge > 0
+	if !ignoreCacheControl && !hasMaxAge && hd.Expires.IsPresent() {
 		expires := hd.Expires.Value()
 		if expires.Before(time.Now()) {
 			return false // If the Expires header is in the past, do not cache
